@@ -18,6 +18,8 @@ static std::string g_degenerate(Tape &t) {
 }
 static Fields gen(Tape &t) {
   Fields f;
+  LongMode lm(t);
+  if (lm.on()) f.seti("long", 1);
   int src = t.weighted({6, 3, 1});
   std::string s;
   if (src == 0) s = g_uri(t);
